@@ -299,11 +299,15 @@ func (t *guardTr) stmt(s ast.Stmt) []string {
 		for _, r := range s.Rhs {
 			out = append(out, t.callActs(r)...)
 		}
-		// an assignment to a flag of the connection is an action of its own
-		for _, l := range s.Lhs {
+		// an assignment to a flag of the connection is an action of its own; an assignment to a tracked boolean
+		// variable (the bits of the reused write header) updates the evaluator's store
+		for i, l := range s.Lhs {
 			if sel, ok := l.(*ast.SelectorExpr); ok {
 				if a, ok := t.atom(sel); ok && guardFlags[a] {
 					out = append(out, ".act "+leanStr("set "+a))
+				}
+				if a, ok := t.atom(sel); ok && guardBoolVars[a] && len(s.Lhs) == len(s.Rhs) && (s.Tok == token.ASSIGN) {
+					out = append(out, fmt.Sprintf(".assign %s (%s)", leanStr(a), t.cond(s.Rhs[i])))
 				}
 			}
 		}
@@ -328,6 +332,8 @@ func (t *guardTr) stmt(s ast.Stmt) []string {
 }
 
 var guardFlags = map[string]bool{"closeSent": true, "peerClosed": true, "closing": true, "msgReader.fin": true, "closed": true, "flate": true, "opcode": true}
+
+var guardBoolVars = map[string]bool{"writeHeader.rsv1": true, "writeHeader.fin": true, "writeHeader.masked": true}
 
 var guardFuncs = []string{
 	"Conn.readRSV1Illegal", "Conn.readLoop", "msgReader.flateContextTakeover", "msgWriter.flateContextTakeover",
